@@ -98,6 +98,14 @@ def same_up_to_rounding(d1, d2):
         return False
 
 
+def digest_problem(p):
+    return json.dumps([p.name, [(n, o.type.name) for n, o in p.objects.items()],
+                       sorted((k, sorted(x.untyped_representation for x in g)) for k, g in p.initial_state_predicates.items() if g),
+                       sorted((k, repr(f.value)) for k, f in p.initial_state_fluents.items()),
+                       sorted(x.untyped_representation for x in p.goal_state_predicates),
+                       sorted(str(x) for x in p.goal_state_fluents)], default=str)
+
+
 def digest_globals():
     from pddl_plus_parser.models import pddl_domain, pddl_type
     from pddl_plus_parser.models import Domain
@@ -118,6 +126,7 @@ class World:
         self.trajectories = [] # (domain slot, list of triplets) returned by the exporter
         self.converter = None  # a MultiAgentDomainsConverter kept across combine operations
         self.combined = []     # combined domains it returned
+        self.problems = []     # parsed Problem objects (the object table, initial state and goal they hold stay what they were)
         self.with_objects = set()   # ids of pooled operators that were given the object table (needed for forall effects)
         self.answers = {}      # (op slot, state slot) -> applicability
         self.results = {}      # (op slot, state slot, flags) -> digest of the returned state
@@ -132,6 +141,8 @@ class World:
             d[("state", i)] = digest_state(st)
         for i, comb in enumerate(self.combined):
             d[("domain", f"combined{i}")] = digest_domain(comb)
+        for i, prob in enumerate(self.problems):
+            d[("problem", i)] = digest_problem(prob)
         return d
 
 
@@ -187,6 +198,7 @@ def run_history(case, res):
                 ok, prob = lib_call(parse_problem_text, problem_text(spec["dom"], spec["objects"], st), dom)
                 if ok:
                     W.states.append((slot, State(prob.initial_state_predicates, prob.initial_state_fluents, is_init=True)))
+                    W.problems.append(prob)
             else:
                 W.states.append((slot, build_state(dom, world, st)))
         elif kind == "ground":
@@ -314,6 +326,9 @@ def run_history(case, res):
             spec = specs[si]
             st = unjstate(spec["states"][op["s"] % len(spec["states"])])
             ok, prob = lib_call(parse_problem_text, problem_text(spec["dom"], spec["objects"], st), dom)
+            if ok:
+                W.problems.append(prob)
+                W.digests[("problem", len(W.problems) - 1)] = digest_problem(prob)
             if ok and spec["calls"]:
                 plan = [spec["calls"][(op["c"] + i) % len(spec["calls"])] for i in range(1 + op["c"] % 3)]
                 lines = ["(" + " ".join([n] + list(a)) + ")" for n, a in plan]
